@@ -111,7 +111,7 @@ def judge(ctx, cases, impl):
 
 def run(ctx):
     g = G(ctx.seed)
-    cases = gen(g, 120 if ctx.tier == 'quick' else 2500)
+    cases = gen(g, 600 if ctx.tier == 'quick' else 2500)
     impl, model = run_apps(ctx, cases)
     judge(ctx, cases, impl)
     for c in cases:
